@@ -38,7 +38,7 @@ POSSIBILITY OF SUCH DAMAGE.
 NTR:
 '''
 
-from ..basis import Params, SearchFacade, SearchResults
+from ..basis import Params, Range, SearchFacade, SearchResults
 from .enums import Table
 from .state import DBI
 from .util import dissect, prime_keys
@@ -49,10 +49,15 @@ class SearchImplementation(SearchFacade):
         '''return all of the prime keys that match the constraints'''
         # alignment of keys       runid  tgt    task   alg     sv     val
         constraints: list[set] = [set(), set(), set(), set(), set(), set()]
+        ranges = []
         results = set()
         for k, v in filter(lambda t: bool(t[1]), parameters._asdict().items()):
             if k == 'runids':
-                constraints[_align(k)].update(v)
+                # a Range is a container of run IDs, not a run ID
+                ranges = [r for r in v if isinstance(r, Range)]
+                constraints[_align(k)].update(
+                    r for r in v if not isinstance(r, Range)
+                )
                 constraints[_align(k)].discard(-1)
             else:
                 table = DBI().tables[_table_index(k)]
@@ -61,7 +66,11 @@ class SearchImplementation(SearchFacade):
                     subvalues = subtable.values() if subtable else [-1]
                     constraints[_align(k)].update(subvalues)
         for pk in prime_keys(DBI().tables.prime):
-            if all(not c or e in c for c, e in zip(constraints, pk)):
+            if (ranges or constraints[0]) and not (
+                pk[0] in constraints[0] or any(pk[0] in r for r in ranges)
+            ):
+                continue
+            if all(not c or e in c for c, e in zip(constraints[1:], pk[1:])):
                 results.add(pk[:keylen])
         return sorted(results)
 
@@ -98,7 +107,7 @@ class SearchImplementation(SearchFacade):
         '''
         items: [str] = []
         pks: [()] = self._prime_keys(parameters)
-        for pk in pks[index:limit]:
+        for pk in pks[index : None if limit is None else index + limit]:
             rid = f'{pk[0]}'
             tgt = dissect(DBI().indices.target[pk[1]])[1]
             tn = dissect(DBI().indices.task[pk[2]])[1]
